@@ -75,6 +75,7 @@ func awkValues() []any {
 		-1, math.MinInt, math.MaxInt, 3, 65536, int8(-1), int64(-5), uint(3), uint16(65535), -0.5, "stderr\\", "\\", // 69-80 numbers at the edges of what selectors / tables expect; backslashes
 		localStackAliasB(stk.Or().Push("in")), localPlainB(), localCondAliasB(stk.Cond("k", stk.Eq, "v")), localPlainClauseB(), // 81-84 an alias type and a plain struct type that print the same name
 		localPlainA(), localStackAliasA(stk.Or().Push("in")), localPlainRuleA(), localCondAliasA(stk.Cond("k", stk.Eq, "v")), // 85-88 the same, met in the other order
+		oddStringer{"x"}, &oddStringer{"y"}, // 89-90 a method named String that takes an argument
 	}
 }
 
@@ -326,5 +327,5 @@ func genAwkward(ctx *Ctx, emit func(any, string)) {
 
 func init() {
 	register(&Family{Name: "awkward", Gen: genAwkward, Run: runAwkward,
-		Rule: "exhaustive: 25 methods taking `any`/interfaces (Push, Push of the same value twice, Insert, Replace, IsEqual, Transfer, SetDelimiter, SetSymbol, SetEncap, Set/UnsetLogLevel, SetLogger, Marshal, ConvertStack, ConvertCondition, Cond (each argument), SetKeyword, SetExpression, SetOperator, Condition.IsEqual/SetEncap/Evaluate, Auxiliary.Set) x a catalogue of 89 awkward Go values (typed nils of depth 1-2, zero Stack/Condition/aliases, funcs, chans, maps, private-field structs, NaN, complex, uintptr, unsafe pointer, empty/nil slices, arrays, errors, stringers, pointers to pointers, bogus operators, NaN-keyed maps, operators of an uncomparable type, non-nil pointers to zero and freed instances, structs with embedded interface fields and swapped field visibility); every ordered pair of catalogue values opposite each other in Stack.IsEqual / Condition.IsEqual (a third of the pairs in the quick tier) x receiver states; then a battery of observers (String, Unmarshal, Marshal of it, IsEqual self/copy both ways, Traverse, IsNesting, Less over every pair of positions, Front, Back, Defrag, Reveal, Push/Pop). Observed: any panic (with the step), receiver still initialised and usable. every case is non-trivial; distinct = input hash"})
+		Rule: "exhaustive: 25 methods taking `any`/interfaces (Push, Push of the same value twice, Insert, Replace, IsEqual, Transfer, SetDelimiter, SetSymbol, SetEncap, Set/UnsetLogLevel, SetLogger, Marshal, ConvertStack, ConvertCondition, Cond (each argument), SetKeyword, SetExpression, SetOperator, Condition.IsEqual/SetEncap/Evaluate, Auxiliary.Set) x a catalogue of 91 awkward Go values (typed nils of depth 1-2, zero Stack/Condition/aliases, funcs, chans, maps, private-field structs, NaN, complex, uintptr, unsafe pointer, empty/nil slices, arrays, errors, stringers, pointers to pointers, bogus operators, NaN-keyed maps, operators of an uncomparable type, non-nil pointers to zero and freed instances, structs with embedded interface fields and swapped field visibility); every ordered pair of catalogue values opposite each other in Stack.IsEqual / Condition.IsEqual (a third of the pairs in the quick tier) x receiver states; then a battery of observers (String, Unmarshal, Marshal of it, IsEqual self/copy both ways, Traverse, IsNesting, Less over every pair of positions, Front, Back, Defrag, Reveal, Push/Pop). Observed: any panic (with the step), receiver still initialised and usable. every case is non-trivial; distinct = input hash"})
 }
